@@ -1,25 +1,38 @@
 (* GlobalsFacts.v -- proofs about Globals.v (C06) *)
 From CssV Require Import Base Globals.
 
-(* ------------------------------------------------------------------ the two halves of the state *)
-Definition core (g : G) := (raising g, ser g, prefs g, level g, dx g, parsers g).
+(* ------------------------------------------------------------------ the parts of the state *)
+Definition core (g : G) := (raising g, ser g, prefs g, level g, dx g, parsers g, profile g, logcfg g).
 Definition mem (g : G) := (memo g, sellevel g).
-(* equal up to the token stash and the push-back list *)
+(* equal up to the token stash, the push-back list and the tokenizer cache *)
 Definition eqv (g1 g2 : G) : Prop := core g1 = core g2 /\ mem g1 = mem g2.
-(* before a call has constructed its first ProdParser the two runs agree up to the stash, afterwards exactly *)
-Definition rel (i : bool) (g1 g2 : G) : Prop := if i then g1 = g2 else eqv g1 g2.
+(* equal up to the tokenizer cache *)
+Definition eqx (g1 g2 : G) : Prop := eqv g1 g2 /\ saved g1 = saved g2 /\ pushed g1 = pushed g2.
+(* every entry of the cache is what compiling its key's arguments gives NOW *)
+Definition coherent (st : sites) (g : G) : Prop :=
+  forall m p v, lookup (keyfn st m p) (cache g) = Some v -> v = resolve (dx g) m p.
+(* two runs: before a call has constructed its first ProdParser they agree up to the stash (j = false),
+   afterwards also on the stash; their caches may differ but are coherent *)
+Definition rel (st : sites) (j : bool) (g1 g2 : G) : Prop :=
+  (if j then eqx g1 g2 else eqv g1 g2) /\ coherent st g1 /\ coherent st g2.
 
 Lemma eqv_refl g : eqv g g.
 Proof. split; reflexivity. Qed.
 
-Lemma eqv_sym g1 g2 : eqv g1 g2 -> eqv g2 g1.
-Proof. intros [A B]; split; congruence. Qed.
-
 Lemma eqv_trans g1 g2 g3 : eqv g1 g2 -> eqv g2 g3 -> eqv g1 g3.
 Proof. intros [A B] [C D]; split; congruence. Qed.
 
-Lemma rel_eqv i g1 g2 : rel i g1 g2 -> eqv g1 g2.
-Proof. destruct i; simpl; intros H; [subst; apply eqv_refl | exact H]. Qed.
+Lemma eqx_eqv g1 g2 : eqx g1 g2 -> eqv g1 g2.
+Proof. intros [H _]; exact H. Qed.
+
+Lemma rel_weaken st j x g1 g2 : rel st (j || x) g1 g2 -> rel st j g1 g2.
+Proof.
+  intros (H & C1 & C2). split; [|split]; auto.
+  destruct j; simpl in *; auto. destruct x; auto using eqx_eqv.
+Qed.
+
+Lemma rel_eqv st j g1 g2 : rel st j g1 g2 -> eqv g1 g2.
+Proof. intros (H & _). destruct j; auto using eqx_eqv. Qed.
 
 Ltac fields H :=
   let Hc := fresh "Hc" in let Hm := fresh "Hm" in
@@ -35,86 +48,256 @@ Proof.
   repeat (apply andb_true_iff in H; destruct H as [H ?]). repeat split; assumption.
 Qed.
 
+Lemma wb_more st : well_bracketed st = true ->
+  parse_saved_in_frame st = true /\ memo_scoped st = true /\ cache_key_full st = true /\ dx_clears_cache st = true.
+Proof.
+  unfold well_bracketed. intros H.
+  repeat (apply andb_true_iff in H; destruct H as [H ?]). repeat split; assumption.
+Qed.
+
+(* ------------------------------------------------------------------ the cache *)
+Lemma eqb_oN_eq a b : eqb_oN a b = true -> a = b.
+Proof. destruct a, b; simpl; try discriminate; auto. intros H. apply N.eqb_eq in H. congruence. Qed.
+
+Lemma eqb_oNN_eq a b : eqb_oNN a b = true -> a = b.
+Proof.
+  destruct a as [[a1 a2]|], b as [[b1 b2]|]; simpl; try discriminate; auto.
+  intros H. apply andb_true_iff in H as [H1 H2]. apply N.eqb_eq in H1, H2. congruence.
+Qed.
+
+Lemma eqb_key_eq a b : eqb_key a b = true -> a = b.
+Proof.
+  destruct a, b. unfold eqb_key. simpl. intros H. apply andb_true_iff in H as [H1 H2].
+  apply eqb_oNN_eq in H1. apply eqb_oN_eq in H2. congruence.
+Qed.
+
+Lemma coherent_ext st g g' : cache g' = cache g -> dx g' = dx g -> coherent st g -> coherent st g'.
+Proof. intros Hc Hd H m p v. rewrite Hc, Hd. apply H. Qed.
+
+Lemma coherent_insert st g m p :
+  cache_key_full st = true -> coherent st g ->
+  coherent st (set_cache ((keyfn st m p, resolve (dx g) m p) :: cache g) g).
+Proof.
+  intros Hk H m' p' v. destruct g; simpl in *.
+  destruct (eqb_key (keyfn st m' p') (keyfn st m p)) eqn:E.
+  - intros Hv. inversion Hv; subst. apply eqb_key_eq in E. unfold keyfn in E. rewrite Hk in E.
+    inversion E; subst. reflexivity.
+  - apply H.
+Qed.
+
+Lemma coherent_empty st g : cache g = [] -> coherent st g.
+Proof. intros Hc m p v. rewrite Hc. simpl. discriminate. Qed.
+
 (* ------------------------------------------------------------------ one primitive event *)
-Lemma do_ev_rel st i e g1 g2 :
-  well_bracketed st = true -> rel i g1 g2 ->
-  match do_ev st i e g1, do_ev st i e g2 with
+Lemma j_or (st : sites) (inited j : bool) : (inited = true -> j = true) -> j || inited = j.
+Proof. destruct inited, j; simpl; auto. intros H. discriminate (H eq_refl). Qed.
+
+Lemma do_ev_rel st inited j e g1 g2 :
+  well_bracketed st = true -> (inited = true -> j = true) -> rel st j g1 g2 ->
+  match do_ev st inited e g1, do_ev st inited e g2 with
   | None, None => True
-  | Some (g1', o1, i1), Some (g2', o2, i2) => o1 = o2 /\ i1 = i2 /\ rel i1 g1' g2'
+  | Some (g1', o1, i1), Some (g2', o2, i2) => o1 = o2 /\ i1 = i2 /\ rel st (j || i1) g1' g2'
   | _, _ => False
   end.
 Proof.
-  intros Hwb Hrel. destruct i; simpl in Hrel.
-  - subst g1. destruct (do_ev st true e g2) as [[[g' o] i']|]; auto. split; [reflexivity|]. split; [reflexivity|]. destruct i'; simpl; auto using eqv_refl.
-  - apply wb_fields in Hwb as (_ & _ & _ & Hp & Hs & _ & _ & _ & Hm).
-    destruct g1, g2. fields Hrel.
-    destruct e; simpl; auto; unfold reads_memo; simpl; rewrite ?Hp, ?Hs, ?Hm; simpl.
-    + repeat split.
-    + repeat split.
-    + destruct (indent_pref prefs0); simpl; repeat split.
-    + repeat split.
+  intros Hwb Hij (Hr & C1 & C2).
+  pose proof (wb_fields st Hwb) as (_ & _ & _ & Hp & Hs & _ & _ & _ & Hm).
+  pose proof (wb_more st Hwb) as (_ & _ & Hk & _).
+  assert (Hv : eqv g1 g2) by (destruct j; auto using eqx_eqv).
+  destruct e; cbn [do_ev].
+  - (* EvInit *) rewrite Hp, Hs. split; [reflexivity|]. split; [reflexivity|].
+    rewrite orb_true_r. split; [|split].
+    + destruct g1, g2. fields Hv. repeat split.
+    + eapply coherent_ext; [| |exact C1]; destruct g1; reflexivity.
+    + eapply coherent_ext; [| |exact C2]; destruct g2; reflexivity.
+  - (* EvPop *) destruct inited; auto. rewrite (Hij eq_refl) in *. simpl in Hr. destruct Hr as (_ & Hsv & Hpu).
+    rewrite Hsv. split; [reflexivity|]. split; [reflexivity|]. split; [|split].
+    + destruct g1, g2. simpl in *. subst. fields Hv. repeat split.
+    + eapply coherent_ext; [| |exact C1]; destruct g1; reflexivity.
+    + eapply coherent_ext; [| |exact C2]; destruct g2; reflexivity.
+  - (* EvSave *) destruct inited; auto. rewrite (Hij eq_refl) in *. simpl in Hr. destruct Hr as (_ & Hsv & Hpu).
+    split; [reflexivity|]. split; [reflexivity|]. split; [|split].
+    + destruct g1, g2. simpl in *. subst. fields Hv. repeat split.
+    + eapply coherent_ext; [| |exact C1]; destruct g1; reflexivity.
+    + eapply coherent_ext; [| |exact C2]; destruct g2; reflexivity.
+  - (* EvPush *) destruct inited; auto. rewrite (Hij eq_refl) in *. simpl in Hr. destruct Hr as (_ & Hsv & Hpu).
+    split; [reflexivity|]. split; [reflexivity|]. split; [|split].
+    + destruct g1, g2. simpl in *. subst. fields Hv. repeat split.
+    + eapply coherent_ext; [| |exact C1]; destruct g1; reflexivity.
+    + eapply coherent_ext; [| |exact C2]; destruct g2; reflexivity.
+  - (* EvTake *) destruct inited; auto. rewrite (Hij eq_refl) in *. simpl in Hr. destruct Hr as (_ & Hsv & Hpu).
+    rewrite Hpu. split; [reflexivity|]. split; [reflexivity|]. split; [|split].
+    + destruct g1, g2. simpl in *. subst. fields Hv. repeat split.
+    + eapply coherent_ext; [| |exact C1]; destruct g1; reflexivity.
+    + eapply coherent_ext; [| |exact C2]; destruct g2; reflexivity.
+  - (* EvLog *) rewrite (j_or st inited j Hij). split; [|split; [reflexivity|split; auto]].
+    destruct g1, g2. fields Hv. reflexivity.
+  - (* EvSer *) rewrite (j_or st inited j Hij). unfold reads_memo. rewrite Hm. simpl.
+    assert (Hpf : prefs g1 = prefs g2) by (destruct Hv as [Hc _]; unfold core in Hc; inversion Hc; auto).
+    rewrite Hpf. split; [|split; [reflexivity|]].
+    + destruct g1, g2. fields Hv. reflexivity.
+    + destruct (indent_pref (prefs g2) || false); [|split; auto].
+      split; [|split].
+      * destruct j; simpl in *.
+        -- destruct Hr as (_ & Hsv & Hpu). destruct g1, g2. simpl in *. subst. fields Hv. repeat split.
+        -- destruct g1, g2. fields Hv. repeat split.
+      * eapply coherent_ext; [| |exact C1]; destruct g1; reflexivity.
+      * eapply coherent_ext; [| |exact C2]; destruct g2; reflexivity.
+  - (* EvTok *)
+    assert (Hdx : dx g1 = dx g2) by (destruct Hv as [Hc _]; unfold core in Hc; inversion Hc; auto).
+    destruct (lookup (keyfn st m p) (cache g1)) as [v1|] eqn:L1, (lookup (keyfn st m p) (cache g2)) as [v2|] eqn:L2;
+      rewrite (j_or st inited j Hij).
+    + rewrite (C1 _ _ _ L1), (C2 _ _ _ L2), Hdx. repeat split; auto.
+    + rewrite (C1 _ _ _ L1), Hdx. split; [reflexivity|]. split; [reflexivity|].
+      split; [exact Hr|]. split; [exact C1|]. apply coherent_insert; auto.
+    + rewrite (C2 _ _ _ L2), Hdx. split; [reflexivity|]. split; [reflexivity|].
+      split; [exact Hr|]. split; [|exact C2]. rewrite <- Hdx. apply coherent_insert; auto.
+    + rewrite Hdx. split; [reflexivity|]. split; [reflexivity|].
+      split; [exact Hr|]. split; [rewrite <- Hdx|]; apply coherent_insert; auto.
+  - (* EvProf *) rewrite (j_or st inited j Hij). split; [|split; [reflexivity|split; auto]].
+    destruct g1, g2. fields Hv. reflexivity.
 Qed.
 
-Lemma do_ev_frame st i e g g' o i' :
-  well_bracketed st = true -> do_ev st i e g = Some (g', o, i') ->
-  core g' = core g /\ (indent_pref (prefs g) = false -> mem g' = mem g).
+Lemma do_ev_core st i e g g' o i' : do_ev st i e g = Some (g', o, i') -> core g' = core g.
 Proof.
-  intros Hwb. apply wb_fields in Hwb as (_ & _ & _ & _ & _ & _ & _ & _ & Hm).
-  destruct g. destruct e; simpl; unfold reads_memo; simpl; rewrite ?Hm; simpl;
-    try (destruct i; intros H; inversion H; subst; clear H; simpl; split; auto; fail).
-  destruct (indent_pref prefs) eqn:E; simpl; intros H; inversion H; subst; clear H; simpl; split; auto; discriminate.
+  destruct g; destruct e; simpl; intros H;
+    try (destruct i; [|discriminate]);
+    repeat match type of H with context [if ?c then _ else _] => destruct c end;
+    repeat match type of H with context [match lookup ?k ?c with _ => _ end] => destruct (lookup k c) end;
+    inversion H; subst; reflexivity.
 Qed.
 
-Lemma wb_in_frame st : well_bracketed st = true -> parse_saved_in_frame st = true.
+(* ------------------------------------------------------------------ single cells *)
+Ltac keeps_coherent C g := eapply coherent_ext; [| |exact C]; destruct g; reflexivity.
+
+Lemma rel_set_raising st j b g1 g2 : rel st j g1 g2 -> rel st j (set_raising b g1) (set_raising b g2).
 Proof.
-  unfold well_bracketed. intros H.
-  repeat (apply andb_true_iff in H; destruct H as [H ?]). assumption.
+  intros (H & C1 & C2). split; [|split]; [|keeps_coherent C1 g1|keeps_coherent C2 g2].
+  destruct j; simpl in *.
+  - destruct H as (Hv & Hsv & Hpu). destruct g1, g2. simpl in *. subst. fields Hv. repeat split.
+  - destruct g1, g2. fields H. repeat split.
 Qed.
 
-(* ------------------------------------------------------------------ setters of single cells *)
-Lemma eqv_set_raising b g1 g2 : eqv g1 g2 -> eqv (set_raising b g1) (set_raising b g2).
-Proof. intros H. destruct g1, g2. fields H. split; reflexivity. Qed.
+Lemma rel_set_ser st j i p lv m sl g1 g2 : rel st j g1 g2 -> rel st j (set_ser i p lv m sl g1) (set_ser i p lv m sl g2).
+Proof.
+  intros (H & C1 & C2). split; [|split]; [|keeps_coherent C1 g1|keeps_coherent C2 g2].
+  destruct j; simpl in *.
+  - destruct H as (Hv & Hsv & Hpu). destruct g1, g2. simpl in *. subst. fields Hv. repeat split.
+  - destruct g1, g2. fields H. repeat split.
+Qed.
 
-Lemma eqv_set_ser i p lv m sl g1 g2 : eqv g1 g2 -> eqv (set_ser i p lv m sl g1) (set_ser i p lv m sl g2).
-Proof. intros H. destruct g1, g2. fields H. split; reflexivity. Qed.
+Lemma rel_set_memo st j m sl g1 g2 : rel st j g1 g2 -> rel st j (set_memo m sl g1) (set_memo m sl g2).
+Proof.
+  intros (H & C1 & C2). split; [|split]; [|keeps_coherent C1 g1|keeps_coherent C2 g2].
+  destruct j; simpl in *.
+  - destruct H as (Hv & Hsv & Hpu). destruct g1, g2. simpl in *. subst. fields Hv. repeat split.
+  - destruct g1, g2. fields H. repeat split.
+Qed.
 
-Lemma core_set_raising b g : core (set_raising b g) = (b, ser g, prefs g, level g, dx g, parsers g).
+Lemma rel_set_memo_of st j a1 a2 g1 g2 :
+  mem a1 = mem a2 -> rel st j g1 g2 ->
+  rel st j (set_memo (memo a1) (sellevel a1) g1) (set_memo (memo a2) (sellevel a2) g2).
+Proof.
+  intros Hm H. unfold mem in Hm. inversion Hm as [[Hm1 Hm2]]. rewrite Hm1, Hm2. apply rel_set_memo. exact H.
+Qed.
+
+Lemma rel_set_logcfg st j l g1 g2 : rel st j g1 g2 -> rel st j (set_logcfg l g1) (set_logcfg l g2).
+Proof.
+  intros (H & C1 & C2). split; [|split]; [|keeps_coherent C1 g1|keeps_coherent C2 g2].
+  destruct j; simpl in *.
+  - destruct H as (Hv & Hsv & Hpu). destruct g1, g2. simpl in *. subst. fields Hv. repeat split.
+  - destruct g1, g2. fields H. repeat split.
+Qed.
+
+Lemma rel_add_parser st j p g1 g2 : rel st j g1 g2 -> rel st j (add_parser p g1) (add_parser p g2).
+Proof.
+  intros (H & C1 & C2).
+  assert (Hps : parsers g1 = parsers g2).
+  { assert (Hv : eqv g1 g2) by (destruct j; auto using eqx_eqv). destruct Hv as [Hc _]. unfold core in Hc. inversion Hc; auto. }
+  unfold add_parser. rewrite Hps.
+  split; [|split]; [|keeps_coherent C1 g1|keeps_coherent C2 g2].
+  destruct j; simpl in *.
+  - destruct H as (Hv & Hsv & Hpu). destruct g1, g2. simpl in *. subst. fields Hv. repeat split.
+  - destruct g1, g2. fields H. repeat split.
+Qed.
+
+Lemma rel_tok_default st j g1 g2 : well_bracketed st = true -> rel st j g1 g2 -> rel st j (tok_default st g1) (tok_default st g2).
+Proof.
+  intros Hwb H. unfold tok_default.
+  assert (Hij : false = true -> j = true) by discriminate.
+  pose proof (do_ev_rel st false j (EvTok None None) g1 g2 Hwb Hij H) as R.
+  destruct (do_ev st false (EvTok None None) g1) as [[[x1 o1] i1]|] eqn:E1,
+           (do_ev st false (EvTok None None) g2) as [[[x2 o2] i2]|] eqn:E2; try contradiction; auto.
+  destruct R as (_ & _ & R).
+  assert (i1 = false).
+  { cbn [do_ev] in E1. destruct (lookup (keyfn st None None) (cache g1)); inversion E1; auto. }
+  subst i1. rewrite orb_false_r in R. exact R.
+Qed.
+
+Lemma core_tok_default st g : core (tok_default st g) = core g.
+Proof.
+  unfold tok_default. destruct (do_ev st false (EvTok None None) g) as [[[x o] i]|] eqn:E; auto.
+  eapply do_ev_core; eauto.
+Qed.
+
+Lemma core_set_raising b g :
+  core (set_raising b g) = (b, ser g, prefs g, level g, dx g, parsers g, profile g, logcfg g).
 Proof. reflexivity. Qed.
 
-(* ------------------------------------------------------------------ the parse bracket, for any way [ex] of running its body *)
-Definition ex_rel (ex : G -> G * (list obs * term)) : Prop :=
-  forall a1 a2, eqv a1 a2 -> snd (ex a1) = snd (ex a2) /\ eqv (fst (ex a1)) (fst (ex a2)).
+(* ------------------------------------------------------------------ brackets, for any way [ex] of running the body *)
+Definition ex_rel st (ex : G -> G * (list obs * term)) : Prop :=
+  forall j a1 a2, rel st j a1 a2 -> snd (ex a1) = snd (ex a2) /\ rel st j (fst (ex a1)) (fst (ex a2)).
+(* a body keeps the core; after the memo bracket also the memo *)
+Definition ex_core (ex : G -> G * (list obs * term)) : Prop := forall a, core (fst (ex a)) = core a.
 Definition ex_frame (ex : G -> G * (list obs * term)) : Prop :=
-  forall a, core (fst (ex a)) = core a /\ (indent_pref (prefs a) = false -> mem (fst (ex a)) = mem a).
+  forall a, core (fst (ex a)) = core a /\ mem (fst (ex a)) = mem a.
 
-Lemma parse_bracket_rel st who praise ex g1 g2 :
-  well_bracketed st = true -> ex_rel ex -> eqv g1 g2 ->
+Lemma memo_bracket_rel st ex : well_bracketed st = true -> ex_rel st ex -> ex_rel st (memo_bracket st ex).
+Proof.
+  intros Hwb Hex j a1 a2 H. unfold memo_bracket. destruct (memo_scoped st); [|apply Hex; exact H].
+  assert (Hm : mem a1 = mem a2) by (apply rel_eqv in H; destruct H; auto).
+  assert (H0 : rel st j (set_memo 0 0 a1) (set_memo 0 0 a2)) by (apply rel_set_memo; exact H).
+  destruct (Hex j _ _ H0) as [A B].
+  destruct (ex (set_memo 0 0 a1)) as [x1 r1], (ex (set_memo 0 0 a2)) as [x2 r2]. simpl in *.
+  split; auto. apply rel_set_memo_of; auto.
+Qed.
+
+Lemma memo_bracket_frame st ex : well_bracketed st = true -> ex_core ex -> ex_frame (memo_bracket st ex).
+Proof.
+  intros Hwb Hex a. pose proof (wb_more st Hwb) as (_ & Hsc & _). unfold memo_bracket. rewrite Hsc.
+  pose proof (Hex (set_memo 0 0 a)) as Hc.
+  destruct (ex (set_memo 0 0 a)) as [x r]. simpl in *.
+  destruct a, x. unfold core, mem in *. simpl in *. inversion Hc; subst. split; reflexivity.
+Qed.
+
+Lemma parse_bracket_rel st who praise ex j g1 g2 :
+  well_bracketed st = true -> ex_rel st ex -> rel st j g1 g2 ->
   snd (parse_bracket st who praise ex g1) = snd (parse_bracket st who praise ex g2) /\
-  eqv (fst (parse_bracket st who praise ex g1)) (fst (parse_bracket st who praise ex g2)).
+  rel st j (fst (parse_bracket st who praise ex g1)) (fst (parse_bracket st who praise ex g2)).
 Proof.
   intros Hwb Hex H. unfold parse_bracket.
-  pose proof (wb_fields st Hwb) as (_ & _ & Hs & _). pose proof (wb_in_frame st Hwb) as Hf.
+  pose proof (wb_fields st Hwb) as (_ & _ & Hs & _). pose proof (wb_more st Hwb) as (Hf & _).
   rewrite Hs, Hf. simpl.
-  assert (raising g1 = raising g2) as Hr by (destruct H as [Hc _]; unfold core in Hc; inversion Hc; auto).
+  assert (raising g1 = raising g2) as Hr
+    by (apply rel_eqv in H; destruct H as [Hc _]; unfold core in Hc; inversion Hc; auto).
   rewrite Hr.
   set (a1 := if parse_sets_flag st then set_raising praise (match who with Some _ => g1 | None => g1 end)
              else match who with Some _ => g1 | None => g1 end).
   set (a2 := if parse_sets_flag st then set_raising praise (match who with Some _ => g2 | None => g2 end)
              else match who with Some _ => g2 | None => g2 end).
-  assert (eqv a1 a2) as Ha.
-  { subst a1 a2. destruct who; destruct (parse_sets_flag st); auto using eqv_set_raising. }
-  destruct (Hex a1 a2 Ha) as [Hsn He].
+  assert (rel st j a1 a2) as Ha.
+  { subst a1 a2. destruct who; destruct (parse_sets_flag st); auto using rel_set_raising. }
+  destruct (Hex j a1 a2 Ha) as [Hsn He].
   destruct (ex a1) as [x1 r1], (ex a2) as [x2 r2]. simpl in Hsn, He. subst r2. simpl. split; auto.
   destruct (if is_ret (snd r1) then parse_restores_normal st else parse_restores_exc st);
-    auto using eqv_set_raising.
+    auto using rel_set_raising.
 Qed.
 
 Lemma parse_bracket_frame st who praise ex g :
   well_bracketed st = true -> ex_frame ex ->
-  core (fst (parse_bracket st who praise ex g)) = core g /\
-  (indent_pref (prefs g) = false -> mem (fst (parse_bracket st who praise ex g)) = mem g).
+  core (fst (parse_bracket st who praise ex g)) = core g /\ mem (fst (parse_bracket st who praise ex g)) = mem g.
 Proof.
-  intros Hwb Hex. pose proof (wb_fields st Hwb) as (Hn & Hx & Hs & _). pose proof (wb_in_frame st Hwb) as Hf.
+  intros Hwb Hex. pose proof (wb_fields st Hwb) as (Hn & Hx & Hs & _). pose proof (wb_more st Hwb) as (Hf & _).
   unfold parse_bracket. rewrite Hs, Hf. simpl.
   set (a := if parse_sets_flag st then set_raising praise (match who with Some _ => g | None => g end)
             else match who with Some _ => g | None => g end).
@@ -123,147 +306,157 @@ Proof.
   assert (Hrest : (if is_ret (snd r) then parse_restores_normal st else parse_restores_exc st) = true)
     by (destruct (is_ret (snd r)); auto).
   rewrite Hrest.
-  assert (core a = (raising a, ser g, prefs g, level g, dx g, parsers g) /\ mem a = mem g) as [Ha Ha'].
+  assert (core a = (raising a, ser g, prefs g, level g, dx g, parsers g, profile g, logcfg g) /\ mem a = mem g) as [Ha Ha'].
   { subst a. destruct who; destruct (parse_sets_flag st); destruct g; split; reflexivity. }
   split.
   - rewrite core_set_raising. unfold core in Hc, Ha. rewrite Ha in Hc. inversion Hc. unfold core. congruence.
-  - intros Hp. assert (indent_pref (prefs a) = false) as Hp'.
-    { unfold core in Ha. inversion Ha. congruence. }
-    destruct x. unfold mem in *. simpl in *. rewrite <- Ha'. auto.
+  - destruct x. unfold mem in *. simpl in *. congruence.
 Qed.
 
 (* ------------------------------------------------------------------ bodies and calls, nested to any depth *)
 (* two runs in lock-step *)
 Lemma sim st : well_bracketed st = true -> forall fuel,
-  (forall b i os g1 g2, rel i g1 g2 ->
-     snd (exec st fuel b i os g1) = snd (exec st fuel b i os g2) /\
-     eqv (fst (exec st fuel b i os g1)) (fst (exec st fuel b i os g2))) /\
-  (forall c g1 g2, eqv g1 g2 ->
+  (forall b inited j os g1 g2, (inited = true -> j = true) -> rel st j g1 g2 ->
+     snd (exec st fuel b inited os g1) = snd (exec st fuel b inited os g2) /\
+     rel st j (fst (exec st fuel b inited os g1)) (fst (exec st fuel b inited os g2))) /\
+  (forall c j g1 g2, rel st j g1 g2 ->
      snd (step st fuel c g1) = snd (step st fuel c g2) /\
-     eqv (fst (step st fuel c g1)) (fst (step st fuel c g2))).
+     rel st j (fst (step st fuel c g1)) (fst (step st fuel c g2))).
 Proof.
   intros Hwb. pose proof (wb_fields st Hwb) as (_ & _ & _ & _ & _ & _ & _ & Hl & _).
+  pose proof (wb_more st Hwb) as (_ & _ & _ & Hdc).
   induction fuel as [|f [IHe IHs]].
-  - split; intros; simpl; split; auto. eapply rel_eqv; eauto.
-  - assert (Hexrel : forall b, ex_rel (exec st f b false [])) by (intros b a1 a2 Ha; apply IHe; exact Ha).
+  - split; intros; simpl; split; auto.
+  - assert (Hexrel : forall b, ex_rel st (memo_bracket st (exec st f b false []))).
+    { intros b. apply memo_bracket_rel; auto. intros j a1 a2 Ha. apply IHe; [discriminate|exact Ha]. }
     split.
-    + intros b i os g1 g2 Hrel. simpl.
+    + intros b inited j os g1 g2 Hij Hrel. simpl.
       destruct (b os) as [e| | | |c].
-      * pose proof (do_ev_rel st i e g1 g2 Hwb Hrel) as H.
-        destruct (do_ev st i e g1) as [[[g1' o1] i1]|], (do_ev st i e g2) as [[[g2' o2] i2]|]; try contradiction.
-        -- destruct H as (-> & -> & H). apply IHe; assumption.
-        -- simpl. split; [reflexivity | eapply rel_eqv; eauto].
-      * simpl. split; [reflexivity | eapply rel_eqv; eauto].
-      * simpl. split; [reflexivity | eapply rel_eqv; eauto].
-      * rewrite Hl. simpl. split; [reflexivity | eapply rel_eqv; eauto].
-      * destruct (is_setter c); [simpl; split; [reflexivity | eapply rel_eqv; eauto]|].
-        destruct i; simpl in Hrel.
-        -- subst g1. destruct (step st f c g2) as [g' r]. apply IHe. reflexivity.
-        -- destruct (IHs c g1 g2 Hrel) as [A B].
-           destruct (step st f c g1) as [x1 r1], (step st f c g2) as [x2 r2]. simpl in A, B. subst r2.
-           apply IHe. exact B.
-    + intros c g1 g2 H. simpl.
-      assert (Hcore : core g1 = core g2) by (destruct H; auto).
+      * pose proof (do_ev_rel st inited j e g1 g2 Hwb Hij Hrel) as H.
+        destruct (do_ev st inited e g1) as [[[g1' o1] i1]|], (do_ev st inited e g2) as [[[g2' o2] i2]|]; try contradiction.
+        -- destruct H as (-> & -> & H).
+           destruct (IHe b i2 (j || i2) (os ++ [o2]) g1' g2') as [A B]; auto.
+           { intros ->. apply orb_true_r. }
+           split; auto. eapply rel_weaken; eauto.
+        -- simpl. auto.
+      * simpl. auto.
+      * simpl. auto.
+      * rewrite Hl. simpl. auto.
+      * destruct (is_setter c); [simpl; auto|].
+        destruct (IHs c j g1 g2 Hrel) as [A B].
+        destruct (step st f c g1) as [x1 r1], (step st f c g2) as [x2 r2]. simpl in A, B. subst r2.
+        apply IHe; auto.
+    + intros c j g1 g2 H. simpl.
+      assert (Hcore : core g1 = core g2) by (apply rel_eqv in H; destruct H; auto).
       assert (raising g1 = raising g2 /\ parsers g1 = parsers g2) as [Hr Hps]
         by (unfold core in Hcore; inversion Hcore; auto).
-      destruct c as [b|i p|p| |praise|who b|fresh fp b1 bm b2|b]; simpl.
-      * split; auto using eqv_set_raising.
-      * split; auto using eqv_set_ser.
-      * split; auto. destruct g1, g2. fields H. split; reflexivity.
-      * split; auto. destruct g1, g2. fields H. split; reflexivity.
-      * split; auto. destruct g1, g2. fields H. split; reflexivity.
+      destruct c as [b|i p|p| |pf|l|praise l|who b|fresh fp b1 bm b2|b]; simpl.
+      * split; auto using rel_set_raising.
+      * split; auto using rel_set_ser.
+      * split; auto. destruct H as (H & C1 & C2). split; [|split]; [|keeps_coherent C1 g1|keeps_coherent C2 g2].
+        destruct j; simpl in *.
+        -- destruct H as (Hv & Hsv & Hpu). destruct g1, g2. simpl in *. subst. fields Hv. repeat split.
+        -- destruct g1, g2. fields H. repeat split.
+      * split; auto. rewrite Hdc. destruct H as (H & C1 & C2).
+        split; [|split; apply coherent_empty; reflexivity].
+        destruct j; simpl in *.
+        -- destruct H as (Hv & Hsv & Hpu). destruct g1, g2. simpl in *. subst. fields Hv. repeat split.
+        -- destruct g1, g2. fields H. repeat split.
+      * split; auto. destruct H as (H & C1 & C2). split; [|split]; [|keeps_coherent C1 g1|keeps_coherent C2 g2].
+        destruct j; simpl in *.
+        -- destruct H as (Hv & Hsv & Hpu). destruct g1, g2. simpl in *. subst. fields Hv. repeat split.
+        -- destruct g1, g2. fields H. repeat split.
+      * split; auto. destruct H as (H & C1 & C2). split; [|split]; [|keeps_coherent C1 g1|keeps_coherent C2 g2].
+        destruct j; simpl in *.
+        -- destruct H as (Hv & Hsv & Hpu). destruct g1, g2. simpl in *. subst. fields Hv. repeat split.
+        -- destruct g1, g2. fields H. repeat split.
+      * split; auto. rewrite Hr. apply rel_add_parser. apply rel_tok_default; auto.
+        destruct l; auto using rel_set_logcfg.
       * destruct who as [n|].
         -- rewrite Hps. destruct (nth_error (parsers g2) n) as [p|]; simpl; auto.
-           destruct (parse_bracket_rel st (Some n) (snd p) _ g1 g2 Hwb (Hexrel b) H) as [A B].
-           destruct (parse_bracket st (Some n) (snd p) (exec st f b false []) g1),
-                    (parse_bracket st (Some n) (snd p) (exec st f b false []) g2). simpl in *. subst. auto.
-        -- destruct (parse_bracket_rel st None false _ g1 g2 Hwb (Hexrel b) H) as [A B].
-           destruct (parse_bracket st None false (exec st f b false []) g1),
-                    (parse_bracket st None false (exec st f b false []) g2). simpl in *. subst. auto.
-      * destruct (parse_bracket_rel st None false _ g1 g2 Hwb (Hexrel b1) H) as [A B].
-        destruct (parse_bracket st None false (exec st f b1 false []) g1) as [x1 r1],
-                 (parse_bracket st None false (exec st f b1 false []) g2) as [x2 r2].
+           destruct (parse_bracket_rel st (Some n) (snd p) _ j g1 g2 Hwb (Hexrel b) H) as [A B].
+           destruct (parse_bracket st (Some n) (snd p) (memo_bracket st (exec st f b false [])) g1),
+                    (parse_bracket st (Some n) (snd p) (memo_bracket st (exec st f b false [])) g2). simpl in *. subst. auto.
+        -- destruct (parse_bracket_rel st None false _ j g1 g2 Hwb (Hexrel b) H) as [A B].
+           destruct (parse_bracket st None false (memo_bracket st (exec st f b false [])) g1),
+                    (parse_bracket st None false (memo_bracket st (exec st f b false [])) g2). simpl in *. subst. auto.
+      * destruct (parse_bracket_rel st None false _ j g1 g2 Hwb (Hexrel b1) H) as [A B].
+        destruct (parse_bracket st None false (memo_bracket st (exec st f b1 false [])) g1) as [x1 r1],
+                 (parse_bracket st None false (memo_bracket st (exec st f b1 false [])) g2) as [x2 r2].
         simpl in A, B. subst r2.
         destruct (negb (is_ret (snd r1))); simpl; auto.
-        destruct (IHe bm false [] x1 x2 B) as [A2 B2].
-        destruct (exec st f bm false [] x1) as [y1 rm1], (exec st f bm false [] x2) as [y2 rm2].
+        destruct (Hexrel bm j x1 x2 B) as [A2 B2].
+        destruct (memo_bracket st (exec st f bm false []) x1) as [y1 rm1],
+                 (memo_bracket st (exec st f bm false []) x2) as [y2 rm2].
         simpl in A2, B2. subst rm2.
         destruct (negb (is_ret (snd rm1))); simpl; auto.
-        assert (rel false (set_ser fresh fp 0 0 0 y1) (set_ser fresh fp 0 0 0 y2)) as B3
-          by (simpl; auto using eqv_set_ser).
-        destruct (IHe b2 false [] _ _ B3) as [A4 B4].
-        destruct (exec st f b2 false [] (set_ser fresh fp 0 0 0 y1)) as [z1 q1],
-                 (exec st f b2 false [] (set_ser fresh fp 0 0 0 y2)) as [z2 q2].
+        assert (rel st j (set_ser fresh fp 0 0 0 y1) (set_ser fresh fp 0 0 0 y2)) as B3
+          by (apply rel_set_ser; exact B2).
+        destruct (Hexrel b2 j _ _ B3) as [A4 B4].
+        destruct (memo_bracket st (exec st f b2 false []) (set_ser fresh fp 0 0 0 y1)) as [z1 q1],
+                 (memo_bracket st (exec st f b2 false []) (set_ser fresh fp 0 0 0 y2)) as [z2 q2].
         simpl in A4, B4. subst q2. simpl. split; auto.
         destruct (if is_ret (snd q1) then comb_restores_normal st else comb_restores_exc st); auto.
-        destruct y1, y2. fields B2. simpl. apply eqv_set_ser. assumption.
-      * destruct (IHe b false [] g1 g2 H) as [A B].
-        destruct (exec st f b false [] g1), (exec st f b false [] g2). simpl in *. subst. auto.
+        assert (Hy : eqv y1 y2) by (eapply rel_eqv; eauto).
+        destruct y1, y2. fields Hy. simpl. apply rel_set_ser. assumption.
+      * destruct (Hexrel b j g1 g2 H) as [A B].
+        destruct (memo_bracket st (exec st f b false []) g1), (memo_bracket st (exec st f b false []) g2).
+        simpl in *. subst. auto.
 Qed.
 
-Lemma step_rel st fuel c g1 g2 :
-  well_bracketed st = true -> eqv g1 g2 ->
-  snd (step st fuel c g1) = snd (step st fuel c g2) /\ eqv (fst (step st fuel c g1)) (fst (step st fuel c g2)).
+Lemma step_rel st fuel c j g1 g2 :
+  well_bracketed st = true -> rel st j g1 g2 ->
+  snd (step st fuel c g1) = snd (step st fuel c g2) /\ rel st j (fst (step st fuel c g1)) (fst (step st fuel c g2)).
 Proof. intros Hwb. apply (sim st Hwb fuel). Qed.
 
-(* a body, and a call that is not one of the caller's own settings, leave every cell but the stash as
-   they found it (the selector memo: as long as indentSpecificities is off) -- nested calls included *)
+(* a body keeps every cell but the stash, the cache and (inside the activation) the memo; a call that is
+   not one of the caller's own settings also keeps the memo -- nested calls included *)
 Lemma frame st : well_bracketed st = true -> forall fuel,
-  (forall b i os g,
-     core (fst (exec st fuel b i os g)) = core g /\
-     (indent_pref (prefs g) = false -> mem (fst (exec st fuel b i os g)) = mem g)) /\
+  (forall b i os g, core (fst (exec st fuel b i os g)) = core g) /\
   (forall c g, is_setter c = false ->
-     core (fst (step st fuel c g)) = core g /\
-     (indent_pref (prefs g) = false -> mem (fst (step st fuel c g)) = mem g)).
+     core (fst (step st fuel c g)) = core g /\ mem (fst (step st fuel c g)) = mem g).
 Proof.
   intros Hwb. pose proof (wb_fields st Hwb) as (_ & _ & _ & _ & _ & Hcn & Hcx & Hl & _).
-  assert (chain : forall g g' g'' : G,
-             core g' = core g /\ (indent_pref (prefs g) = false -> mem g' = mem g) ->
-             core g'' = core g' /\ (indent_pref (prefs g') = false -> mem g'' = mem g') ->
-             core g'' = core g /\ (indent_pref (prefs g) = false -> mem g'' = mem g)).
-  { intros g g' g'' [A B] [C D]. split; [congruence|]. intros Hp.
-    assert (indent_pref (prefs g') = false) by (unfold core in A; inversion A; congruence).
-    rewrite D; auto. }
   induction fuel as [|f [IHe IHs]].
   - split; intros; simpl; auto.
-  - assert (Hexf : forall b, ex_frame (exec st f b false [])) by (intros b a; apply IHe).
+  - assert (Hexf : forall b, ex_frame (memo_bracket st (exec st f b false []))).
+    { intros b. apply memo_bracket_frame; auto. intros a. apply IHe. }
     split.
     + intros b i os g. simpl.
       destruct (b os) as [e| | | |c]; simpl; auto.
       * destruct (do_ev st i e g) as [[[g' o] i']|] eqn:E; simpl; auto.
-        eapply chain; [exact (do_ev_frame _ _ _ _ _ _ _ Hwb E) | apply IHe].
+        rewrite IHe. eapply do_ev_core; eauto.
       * rewrite Hl. simpl. auto.
       * destruct (is_setter c) eqn:Es; simpl; auto.
-        pose proof (IHs c g Es) as F. destruct (step st f c g) as [g' r]. simpl in F.
-        eapply chain; [exact F | apply IHe].
+        pose proof (IHs c g Es) as [F _]. destruct (step st f c g) as [g' r]. simpl in F.
+        rewrite IHe. exact F.
     + intros c g Hc. simpl.
-      destruct c as [b|i p|p| |praise|who b|fresh fp b1 bm b2|b]; simpl in Hc; try discriminate.
+      destruct c as [b|i p|p| |pf|l|praise l|who b|fresh fp b1 bm b2|b]; simpl in Hc; try discriminate.
       * destruct who as [n|].
         -- destruct (nth_error (parsers g) n) as [p|]; simpl; auto.
            pose proof (parse_bracket_frame st (Some n) (snd p) _ g Hwb (Hexf b)) as F.
-           destruct (parse_bracket st (Some n) (snd p) (exec st f b false []) g). exact F.
+           destruct (parse_bracket st (Some n) (snd p) (memo_bracket st (exec st f b false [])) g). exact F.
         -- pose proof (parse_bracket_frame st None false _ g Hwb (Hexf b)) as F.
-           destruct (parse_bracket st None false (exec st f b false []) g). exact F.
-      * pose proof (parse_bracket_frame st None false _ g Hwb (Hexf b1)) as F1.
-        destruct (parse_bracket st None false (exec st f b1 false []) g) as [x r1]. simpl in F1.
+           destruct (parse_bracket st None false (memo_bracket st (exec st f b false [])) g). exact F.
+      * pose proof (parse_bracket_frame st None false _ g Hwb (Hexf b1)) as [F1 M1].
+        destruct (parse_bracket st None false (memo_bracket st (exec st f b1 false [])) g) as [x r1]. simpl in F1, M1.
         destruct (negb (is_ret (snd r1))); simpl; auto.
-        pose proof (IHe bm false [] x) as F2.
-        destruct (exec st f bm false [] x) as [y rm]. simpl in F2.
-        pose proof (chain _ _ _ F1 F2) as [Fy My].
-        destruct (negb (is_ret (snd rm))); simpl; auto.
-        destruct (IHe b2 false [] (set_ser fresh fp 0 0 0 y)) as [F3 _].
-        destruct (exec st f b2 false [] (set_ser fresh fp 0 0 0 y)) as [z q]. simpl in F3.
+        pose proof (Hexf bm x) as [F2 M2].
+        destruct (memo_bracket st (exec st f bm false []) x) as [y rm]. simpl in F2, M2.
+        destruct (negb (is_ret (snd rm))); simpl; [split; congruence|].
+        destruct (Hexf b2 (set_ser fresh fp 0 0 0 y)) as [F3 _].
+        destruct (memo_bracket st (exec st f b2 false []) (set_ser fresh fp 0 0 0 y)) as [z q]. simpl in F3.
         assert (Hrest : (if is_ret (snd q) then comb_restores_normal st else comb_restores_exc st) = true)
           by (destruct (is_ret (snd q)); auto).
-        rewrite Hrest. destruct y, z. unfold core, mem in *. simpl in *. inversion F3; subst. split; auto.
-      * pose proof (IHe b false [] g) as F.
-        destruct (exec st f b false [] g). exact F.
+        rewrite Hrest. destruct y, z, x, g. unfold core, mem in *. simpl in *.
+        inversion F3; inversion F2; inversion F1; inversion M1; inversion M2; subst. split; reflexivity.
+      * pose proof (Hexf b g) as F.
+        destruct (memo_bracket st (exec st f b false []) g). exact F.
 Qed.
 
 Lemma step_frame st fuel c g :
   well_bracketed st = true -> is_setter c = false ->
-  core (fst (step st fuel c g)) = core g /\
-  (indent_pref (prefs g) = false -> mem (fst (step st fuel c g)) = mem g).
+  core (fst (step st fuel c g)) = core g /\ mem (fst (step st fuel c g)) = mem g.
 Proof. intros Hwb. apply (frame st Hwb fuel). Qed.
 
 (* ------------------------------------------------------------------ histories *)
@@ -273,51 +466,59 @@ Proof. reflexivity. Qed.
 Lemma run_app st fuel h1 h2 g : run st fuel (h1 ++ h2) g = run st fuel h2 (run st fuel h1 g).
 Proof. unfold run. apply fold_left_app. Qed.
 
-Lemma setter_keeps_no_indent st fuel c g :
-  is_setter c = true -> no_indent_call c = true -> indent_pref (prefs g) = false ->
-  indent_pref (prefs (fst (step st fuel c g))) = false.
-Proof.
-  destruct fuel; [simpl; auto|].
-  destruct c; simpl; try discriminate; intros _ Hn Hp; auto.
-  - apply negb_true_iff in Hn. exact Hn.
-  - apply negb_true_iff in Hn. exact Hn.
-Qed.
+Lemma rel_refl_coherent st g : coherent st g -> rel st true g g.
+Proof. intros C. split; [|split]; auto. repeat split. Qed.
 
 Lemma run_eqv st fuel : well_bracketed st = true ->
-  forall hist g1 g2, eqv g1 g2 -> no_indent hist = true -> indent_pref (prefs g1) = false ->
-    eqv (run st fuel hist g1) (run st fuel (setters hist) g2).
+  forall hist g1 g2, rel st false g1 g2 -> rel st false (run st fuel hist g1) (run st fuel (setters hist) g2).
 Proof.
-  intros Hwb. induction hist as [|c hist IH]; intros g1 g2 H Hn Hp; [simpl; auto|].
-  simpl in Hn. apply andb_true_iff in Hn as [Hn1 Hn2].
+  intros Hwb. induction hist as [|c hist IH]; intros g1 g2 H; [simpl; auto|].
   change (setters (c :: hist)) with (if is_setter c then c :: setters hist else setters hist).
   rewrite run_cons. destruct (is_setter c) eqn:Es.
-  - rewrite run_cons. apply IH; auto.
-    + apply (step_rel st fuel c g1 g2 Hwb H).
-    + apply setter_keeps_no_indent; auto.
-  - destruct (step_frame st fuel c g1 Hwb Es) as [Fc Fm]. apply IH; auto.
-    + apply eqv_trans with g1; auto. split; auto.
-    + unfold core in Fc. inversion Fc. congruence.
+  - rewrite run_cons. apply IH. apply (step_rel st fuel c false g1 g2 Hwb H).
+  - apply IH. destruct (step_frame st fuel c g1 Hwb Es) as [Fc Fm].
+    destruct H as (Hv & C1 & C2).
+    assert (C1' : coherent st (fst (step st fuel c g1))).
+    { destruct (step_rel st fuel c true g1 g1 Hwb (rel_refl_coherent st g1 C1)) as (_ & _ & C & _). exact C. }
+    split; [|split]; auto.
+    apply eqv_trans with g1; auto. split; auto.
 Qed.
+
+Lemma coherent_G0 st : coherent st G0.
+Proof.
+  intros m p v. unfold G0. simpl. destruct (eqb_key (keyfn st m p) (None, None)) eqn:E; [|discriminate].
+  intros Hv. inversion Hv; subst. apply eqb_key_eq in E. unfold keyfn in E.
+  assert (p = None) by (inversion E; auto). subst p.
+  assert (m = None) as -> by (destruct m; [destruct (cache_key_full st); inversion E|reflexivity]).
+  reflexivity.
+Qed.
+
+Lemma rel_G0 st : rel st false G0 G0.
+Proof. split; [apply eqv_refl|]. split; apply coherent_G0. Qed.
 
 (* C06, first half, for any well-bracketed tree; calls may nest (callbacks) to any depth *)
 Theorem history_independent_gen st : well_bracketed st = true ->
-  forall fuel hist c, no_indent hist = true ->
+  forall fuel hist c,
     result st fuel (run st fuel hist G0) c = result st fuel (run st fuel (setters hist) G0) c.
 Proof.
-  intros Hwb fuel hist c Hn. unfold result.
-  apply (step_rel st fuel c _ _ Hwb). apply run_eqv; auto using eqv_refl.
+  intros Hwb fuel hist c. unfold result.
+  apply (step_rel st fuel c false _ _ Hwb). apply run_eqv; auto using rel_G0.
 Qed.
 
 Corollary history_independent_nosetters st : well_bracketed st = true ->
-  forall fuel hist c, setters hist = [] -> no_indent hist = true ->
+  forall fuel hist c, setters hist = [] ->
     result st fuel (run st fuel hist G0) c = result st fuel (run st fuel [] G0) c.
-Proof. intros Hwb fuel hist c Hs Hn. rewrite (history_independent_gen st Hwb fuel hist c Hn), Hs. reflexivity. Qed.
+Proof. intros Hwb fuel hist c Hs. rewrite (history_independent_gen st Hwb fuel hist c), Hs. reflexivity. Qed.
 
 Lemma observable_step st fuel c g : well_bracketed st = true -> fuel <> O ->
   observable (fst (step st fuel c g)) = set_by (observable g) c.
 Proof.
   intros Hwb Hf. destruct (is_setter c) eqn:Es.
-  - destruct fuel; [congruence|]. destruct c; simpl in Es; try discriminate; destruct g; reflexivity.
+  - destruct fuel; [congruence|]. destruct c as [b|i p|p| |pf|l|praise l|who b|fresh fp b1 bm b2|b];
+      simpl in Es; try discriminate; try (destruct g; reflexivity).
+    simpl. unfold observable.
+    pose proof (core_tok_default st (match l with Some x => set_logcfg x g | None => g end)) as Hc.
+    unfold core in Hc. destruct l; destruct g; simpl in *; inversion Hc; reflexivity.
   - destruct (step_frame st fuel c g Hwb Es) as [Fc _].
     unfold observable. unfold core in Fc. inversion Fc.
     destruct c; simpl in Es; try discriminate; simpl; congruence.
@@ -334,18 +535,19 @@ Proof.
   rewrite <- (observable_step st fuel c g Hwb Hf). apply IH.
 Qed.
 
-(* the selector memo of the experimental indentSpecificities preference is never reset: with the
-   preference on, a serialisation sees what earlier serialisations left -- in every tree *)
+(* ------------------------------------------------------------------ trees with an incomplete bracket: witnesses *)
+Definition repaired : sites := mkSites true true true true true true true true true true true true true true.
+
+(* (o) the selector memo of the experimental indentSpecificities preference, before it was scoped to one
+   sheet serialization: with the preference on, a serialisation sees what earlier ones left *)
+Definition unscoped : sites := mkSites true true true true true true true true true true true false true true.
 Definition memo_hist : list call := [CSetPrefs 1; CPlain (script [Do (EvSer 1 0)])].
 Definition memo_call : call := CPlain (script [Do (EvSer 2 1)]).
 
-Theorem memo_dependent st :
-  result st 5 (run st 5 memo_hist G0) memo_call <> result st 5 (run st 5 (setters memo_hist) G0) memo_call.
-Proof.
-  unfold result, memo_hist, memo_call. simpl. unfold reads_memo. simpl. discriminate.
-Qed.
+Lemma unscoped_memo :
+  result unscoped 5 (run unscoped 5 memo_hist G0) memo_call <> result unscoped 5 (run unscoped 5 (setters memo_hist) G0) memo_call.
+Proof. vm_compute. discriminate. Qed.
 
-(* ------------------------------------------------------------------ the pinned tree *)
 (* (i)  MediaQuery('print x') = [ProdParser(); pop; ...; savedTokens.append(x)], then parseStyle *)
 Definition stash_hist : list call := [CPlain (script [Do EvInit; Do EvPop; Do (EvSave 120)])].
 Definition stash_call : call := CParse None (script [Do EvInit; Do EvPop]).
@@ -353,7 +555,7 @@ Definition stash_call : call := CParse None (script [Do EvInit; Do EvPop]).
 Definition flag_hist : list call := [CParse None (script [Exc])].
 Definition flag_call : call := CPlain (script [Do EvLog]).
 (* (ii') p = CSSParser(); log.raiseExceptions = False; p.parseString('a{}') *)
-Definition captured_hist : list call := [CNewParser false; CSetRaising false; CParse (Some 0%nat) (script [Ret])].
+Definition captured_hist : list call := [CNewParser false None; CSetRaising false; CParse (Some 0%nat) (script [Ret])].
 (* (iii) csscombine(cssText='a{color:red}', targetencoding='undefined') raises while serialising *)
 Definition combine_hist : list call := [CCombine 7 2 (script [Ret]) (script [Ret]) (script [Do (EvSer 0 0); Exc])].
 
@@ -372,13 +574,13 @@ Proof. vm_compute. discriminate. Qed.
 Lemma pinned_combine_settings : observable (run pinned 10 combine_hist G0) <> last_set_by_caller combine_hist.
 Proof. vm_compute. discriminate. Qed.
 
-(* ------------------------------------------------------------------ a tree that keeps the saved flag on the parser object *)
-(* every bracket complete, value read at parse entry -- but stored in self.__globalRaising instead of the
-   frame of the running parse (seeded regression C06-2).  Sequential use is fine; a fetcher that parses
-   with the same parser while the outer parse resolves an @import overwrites the slot: *)
-Definition onself : sites := mkSites true true true true false true true true true true true.
+(* (iv) a tree that keeps the saved flag on the parser object (seeded regression C06-2): every bracket
+   complete, value read at parse entry -- but stored in self.__globalRaising instead of the frame of the
+   running parse.  A fetcher that parses with the same parser while the outer parse resolves an @import
+   overwrites the slot: *)
+Definition onself : sites := mkSites true true true true false true true true true true true true true true.
 Definition reentrant_hist : list call :=
-  [CNewParser false; CParse (Some 0%nat) (script [Nest (CParse (Some 0%nat) (script [Ret])); Ret])].
+  [CNewParser false None; CParse (Some 0%nat) (script [Nest (CParse (Some 0%nat) (script [Ret])); Ret])].
 
 Lemma onself_reentrant_settings : observable (run onself 10 reentrant_hist G0) <> last_set_by_caller reentrant_hist.
 Proof. vm_compute. discriminate. Qed.
@@ -387,40 +589,65 @@ Lemma onself_reentrant_result :
   result onself 10 (run onself 10 reentrant_hist G0) flag_call <> result onself 10 (run onself 10 (setters reentrant_hist) G0) flag_call.
 Proof. vm_compute. discriminate. Qed.
 
-(* nesting on ANOTHER parser object, or sequential parses on the same one, do not show it *)
 Example onself_other_parser_ok :
-  observable (run onself 10 [CNewParser false; CNewParser false;
+  observable (run onself 10 [CNewParser false None; CNewParser false None;
                              CParse (Some 0%nat) (script [Nest (CParse (Some 1%nat) (script [Ret])); Ret]);
                              CParse (Some 0%nat) (script [Ret])] G0) = observable G0.
 Proof. vm_compute. reflexivity. Qed.
 
-(* the same witnesses are harmless in a well-bracketed tree *)
-Definition repaired : sites := mkSites true true true true true true true true true true true.
+(* (v) the tokenizer cache keyed on the macro NAMES only (seeded regression C09-3): Tokenizer(macros = the
+   default names with other definitions) poisons the entry every later Tokenizer with those names gets *)
+Definition nameskey : sites := mkSites true true true true true true true true true true true true false true.
+Definition cache_hist : list call := [CPlain (script [Do (EvTok (Some (7, 8)%N) None)])].
+Definition cache_call : call := CPlain (script [Do (EvTok (Some (7, 9)%N) None)]).
 
+Lemma nameskey_cache :
+  result nameskey 5 (run nameskey 5 cache_hist G0) cache_call <> result nameskey 5 (run nameskey 5 (setters cache_hist) G0) cache_call.
+Proof. vm_compute. discriminate. Qed.
+
+(* (vi) settings.set without clearing the cache: a Tokenizer(macros) with default productions compiled before
+   the switch is handed out after it *)
+Definition noclear : sites := mkSites true true true true true true true true true true true true true false.
+Definition noclear_hist : list call := [CPlain (script [Do (EvTok (Some (7, 8)%N) None)]); CSetDX].
+Definition noclear_call : call := CPlain (script [Do (EvTok (Some (7, 8)%N) None)]).
+
+Lemma noclear_cache :
+  result noclear 5 (run noclear 5 noclear_hist G0) noclear_call <> result noclear 5 (run noclear 5 (setters noclear_hist) G0) noclear_call.
+Proof. vm_compute. discriminate. Qed.
+
+(* the same witnesses are harmless in a well-bracketed tree *)
 Example repaired_stash : result repaired 10 (run repaired 10 stash_hist G0) stash_call = [([ONone; OTok None], TRet)].
 Proof. vm_compute. reflexivity. Qed.
 
-Example repaired_flag : result repaired 10 (run repaired 10 flag_hist G0) flag_call = [([OFlag true], TRet)].
+Example repaired_flag : result repaired 10 (run repaired 10 flag_hist G0) flag_call = [([OFlag true 0], TRet)].
 Proof. vm_compute. reflexivity. Qed.
 
 Example repaired_settings :
-  observable (run repaired 10 (flag_hist ++ captured_hist ++ combine_hist ++ reentrant_hist) G0) = (false, 0%N, 0%N, false).
+  observable (run repaired 10 (flag_hist ++ captured_hist ++ combine_hist ++ reentrant_hist) G0) = (false, 0%N, 0%N, false, 0%N, 0%N).
 Proof. vm_compute. reflexivity. Qed.
 
-(* non-vacuity of the hypotheses of history_independent_gen: a history that leaks a token, raises in a
-   parse, changes settings, serialises, parses re-entrantly (same parser, depth 2) -- and a call that
+Example repaired_cache :
+  result repaired 5 (run repaired 5 (cache_hist ++ noclear_hist) G0) cache_call = [([OCfg ((7, 9), 1)%N], TRet)] /\
+  result repaired 5 (run repaired 5 (cache_hist ++ noclear_hist) G0) noclear_call = [([OCfg ((7, 8), 1)%N], TRet)] /\
+  result repaired 5 (run repaired 5 (memo_hist) G0) memo_call = [([OSer 0 1 0 0 (Some 0%N)], TRet)].
+Proof. vm_compute. repeat split. Qed.
+
+(* non-vacuity: a history that leaks a token, raises in a parse, changes every setting, serialises with
+   indentSpecificities on, fills the cache, parses re-entrantly (same parser, depth 2) -- and a call that
    reads every cell, from inside a callback too *)
 Definition busy_hist : list call :=
-  stash_hist ++ flag_hist ++ [CSetRaising false; CSetSer 3 4; CPlain (script [Do (EvSer 9 9); ExcInRule])] ++ combine_hist ++
-  [CSetDX; CNewParser true;
+  stash_hist ++ flag_hist ++ [CSetRaising false; CSetSer 3 5; CPlain (script [Do (EvSer 9 9); ExcInRule])] ++ combine_hist ++
+  cache_hist ++ [CPlain (script [Do (EvTok None None)]); CSetDX; CSetProfile 6; CSetLog 4; CNewParser true None;
    CParse (Some 0%nat) (script [Do EvInit; Nest (CParse (Some 0%nat) (script [Do EvInit; Do (EvSave 5);
                                    Nest (CParse (Some 0%nat) (script [Do EvLog; Exc])); Ret])); Do EvPop; Exc])].
 Definition busy_call : call :=
-  CParse None (script [Do EvInit; Do EvPop; Do EvTake; Do EvLog; Do (EvSer 1 1); Do EvTok;
-                       Nest (CPlain (script [Do EvLog; Do EvInit; Do EvPop])); Do EvLog]).
+  CParse None (script [Do EvInit; Do EvPop; Do EvTake; Do EvLog; Do (EvSer 1 1); Do (EvSer 2 2); Do (EvTok None None);
+                       Do (EvTok (Some (7, 1)%N) (Some 3%N)); Do EvProf;
+                       Nest (CPlain (script [Do EvLog; Do EvInit; Do EvPop; Do (EvSer 4 4)])); Do EvLog]).
 
-Example busy_ok : well_bracketed repaired = true /\ no_indent busy_hist = true /\
+Example busy_ok : well_bracketed repaired = true /\
   result repaired 20 (run repaired 20 busy_hist G0) busy_call =
-    [([ONone; OTok None; OTok None; OFlag false; OSer 3 4 0 0 None; ODx true;
-       ONest [([OFlag false; ONone; OTok None], TRet)]; OFlag false], TRet)].
+    [([ONone; OTok None; OTok None; OFlag false 4; OSer 3 5 0 0 (Some 0%N); OSer 3 5 0 1 (Some 1%N);
+       OCfg ((0, 0), 1)%N; OCfg ((7, 1), 3)%N; OProf 6;
+       ONest [([OFlag false 4; ONone; OTok None; OSer 3 5 0 0 (Some 0%N)], TRet)]; OFlag false 4], TRet)].
 Proof. vm_compute. repeat split. Qed.
